@@ -256,7 +256,7 @@ pub fn cli_bin() -> PathBuf {
     PathBuf::from(std::env::var("VERIF_CLI_BIN").unwrap_or_else(|_| "/verif/target/cli/debug/txtpp".into()))
 }
 
-pub const STRACE_SET: &str = "execve,chdir,fchdir,openat,open,creat,unlink,unlinkat,rename,renameat,renameat2,truncate,ftruncate,mkdir,mkdirat,rmdir,link,linkat,symlink,symlinkat,utimensat,fchmodat,chmod";
+pub const STRACE_SET: &str = "execve,clone,clone3,fork,vfork,chdir,fchdir,openat,open,creat,unlink,unlinkat,rename,renameat,renameat2,truncate,ftruncate,mkdir,mkdirat,rmdir,link,linkat,symlink,symlinkat,utimensat,fchmodat,chmod";
 
 /// Run the txtpp binary in `cwd` with `args`
 pub fn run_cli(cwd: &Path, args: &[String], opts: &CliOpts) -> CliOutcome {
